@@ -128,6 +128,8 @@ namespace Givaro {
                     std::cerr << "WARNING : Try a direct extension field GFDom instead of a polynomial extension" << std::endl;
                     _bF = BaseField_t(p, 1);
                     _pD = Pol_t(_bF, Y);
+                    // the constants were taken from the polynomial domain that has just been replaced
+                    zero = _pD.zero; one = _pD.one; mOne = _pD.mOne;
                     _extension_order = _exponent;
 		}
 		_pD.creux_random_irreducible( _irred, (int64_t)_extension_order );
